@@ -151,6 +151,11 @@ def evaluate(kind, case, acc):
         if r is None:
             acc.fail(kind, f"{fam_label}:own-tag-rejected", case, expected="compatible", got=t)
             break
+        # the same tag through the file-name entry point
+        rw = spec.wheel_compatibility(f"x-1-py3-none-{t}.whl")
+        if rw != r:
+            acc.fail(kind, f"{fam_label}:wheel_compatibility-differs-from-compatibility", case, expected=r, got={"tag": t, "wheel_compatibility": rw})
+            break
         if prev is not None and not r[3] < prev:
             acc.fail(kind, f"{fam_label}:score-not-decreasing", case, expected=f"< {prev}", got={"tag": t, "score": r[3]})
             break
